@@ -90,8 +90,9 @@ func NewFilterFS(fs FS, opt *FilterOpt) (FS, error) {
 			return nil, err
 		}
 		if targets != nil {
+			// targets are already sorted and deduplicated by FollowLinks; the combined list is
+			// order-sensitive (exceptions), so it must not be deduplicated as a list of paths
 			includePatterns = append(includePatterns, targets...)
-			includePatterns = dedupePaths(includePatterns)
 		}
 	}
 
